@@ -647,3 +647,24 @@ pub fn replay_file(props: &[PropDef], path: &str) -> i32 {
         }
     }
 }
+
+// ---------------------------------------------------------------------------------------------
+// tokio context for code that creates timers or channels (the harness owns the schedule: futures are
+// polled explicitly, no time passes)
+
+thread_local! {
+    static RUNTIME: tokio::runtime::Runtime = tokio::runtime::Builder::new_current_thread().enable_all().build().expect("tokio runtime");
+}
+
+/// Runs `f` inside a current-thread tokio runtime context.
+pub fn in_runtime<T>(f: impl FnOnce() -> T) -> T {
+    RUNTIME.with(|rt| {
+        let _g = rt.enter();
+        f()
+    })
+}
+
+/// Drives a future to completion on the harness runtime.
+pub fn block_on<F: std::future::Future>(f: F) -> F::Output {
+    RUNTIME.with(|rt| rt.block_on(f))
+}
